@@ -77,14 +77,27 @@ impl UpdateGenerator for MarkdownUpdateGenerator {
                     language,
                     config_lines,
                     comment_lines,
-                    code_lines: _,
+                    code_lines,
                 } => {
                     let config = if config_lines.is_empty() {
                         "".into()
                     } else {
                         format!(" {{{}}}", config_lines.join_newline().trim_start())
                     };
-                    let generated = outcomes[testcase_index]
+
+                    // a code block without code holds no test, hence has no outcome
+                    if code_lines.is_empty() {
+                        updated.push_str(&formatln!("```{}{}", &language, &config));
+                        for (_, line) in &comment_lines {
+                            updated.push_str(&line.assure_newline());
+                        }
+                        updated.push_str("```\n");
+                        continue;
+                    }
+
+                    let generated = outcomes
+                        .get(testcase_index)
+                        .with_context(|| format!("no outcome for testcase number {}", testcase_index + 1))?
                         .generate_testcase()
                         .with_context(|| format!("testcase number {}", testcase_index + 1))?;
                     let backticks = "`".repeat(max_backtick_size(&generated) + 1);
